@@ -1019,8 +1019,15 @@ def check_property(pid, tier, only=None, keep=False):
         return 2
     known = [k for k in load_known() if k['property'] == pid]
     nworkers = int(os.environ.get('VERIF_JOBS', '16'))
+    # memory-hungry units (mem_gb >= 14) run one at a time after the others: several of them side by side exhaust the
+    # machine and end as 'undecided'
+    light = [u for u in units if u.get('mem_gb', 8) < 14]
+    heavy = [u for u in units if u.get('mem_gb', 8) >= 14]
     with ThreadPoolExecutor(max_workers=nworkers) as pool:
-        results = list(pool.map(lambda u: run_unit_cached(u, tier, keep=keep), units))
+        rl = list(pool.map(lambda u: run_unit_cached(u, tier, keep=keep), light))
+    rh = [run_unit_cached(u, tier, keep=keep) for u in heavy]
+    units = light + heavy
+    results = rl + rh
 
     violations = []
     known_hits = []
